@@ -25,13 +25,15 @@ class Backend:
         self.use_environ = use_environ
         self._module = None
 
-        # Split out api (if present).
-        if api:
-            self.api = api
-        elif self.name and '/' in self.name:
+        # Split out api (if present). An explicit api argument wins,
+        # but the name must still be split or the module can't be found.
+        if self.name and '/' in self.name:
             self.name, self.api = self.name.split('/', 1)
         else:
             self.api = None
+
+        if api:
+            self.api = api
 
         if load:
             self.load()
